@@ -5,7 +5,9 @@ Type-directed and scope-aware so that (almost) every program is accepted by the 
 * a function body only calls functions declared before it (no recursion except the fixed `fib` template);
 * wrong-typed operations are generated on purpose, with low probability outside `try`, high inside.
 
-Signatures of known defects that the generator stays clear of (DESIGN §6; each can be switched back on):
+Signatures of defects the generator used to stay clear of while they were open (DESIGN §6).  All of D1, D2, D3, D25 are repaired
+in /repo and their shapes are generated (avoid_d2 defaults to False, can_try allows parameters, earlier ternaries and nesting);
+still avoided: D9/D20 shapes (see below) and the last item:
 * D2  — `break`/`continue` while a local of the loop body is live (avoid_d2); a `try` textually after a ternary in the same
         function body (the straight-line depth pass counts both ternary branches); a `try` after a block that declares a
         local and ends in `raise`/`return` (the scope-exit Drop is removed as dead code, the pass keeps the slot);
@@ -50,7 +52,7 @@ class FnCtx:
 
 
 class ProgGen:
-    def __init__(self, rng, max_depth=6, avoid_d2=True, p_err=0.04):
+    def __init__(self, rng, max_depth=6, avoid_d2=False, p_err=0.04):
         self.rng = rng
         self.max_depth = max_depth
         self.avoid_d2 = avoid_d2
@@ -124,8 +126,10 @@ class ProgGen:
         return (not self.avoid_d2) or k == 0
 
     def can_try(self):
+        # (D1 `try` in a function with parameters, D2 `try` after a ternary, D3 nested `try` are repaired: no shape is avoided;
+        # nesting is bounded only to keep programs small)
         f = self.fn()
-        return f.nparams == 0 and not f.ternary_seen and f.in_try == 0
+        return f.in_try < 3
 
     def can_ternary(self):
         return True
@@ -725,7 +729,7 @@ class ProgGen:
         if info["fields"]:
             fl = r.choice(info["fields"])
             out.append(Print(Prop(Var(o), fl)))
-            if self.fn().kind not in ("method", "init"):      # D25: compound property assignment on a non-self receiver
+            if True:      # (D25, compound property assignment on a non-self receiver inside a method, is repaired: generated everywhere)
                 out.append(ExprStmt(Assign(Prop(Var(o), fl), self.expr("num", 1), r.choice(["set", "set+", "set-"]))))
             else:
                 out.append(ExprStmt(Assign(Prop(Var(o), fl), self.expr("num", 1))))
